@@ -41,6 +41,7 @@ type eCase struct {
 	Docs    []eDoc         `json:"docs"`
 	Queries []eQuery       `json:"queries"`
 	Batch   int            `json:"batch,omitempty"`   // > 1: documents are handed to AddDocument in groups of up to Batch
+	Pre     []eDoc         `json:"pre,omitempty"`     // an earlier generation of the same builder: these documents are added, the index is built and dropped, the builder is Reset
 	Rebuild int            `json:"rebuild,omitempty"` // > 0: BuildIndex is also called after the first Rebuild documents (no Reset); the final build is the one queried
 }
 
@@ -335,6 +336,13 @@ func execE2E(raw json.RawMessage) (res execResult, err error) {
 			return "IAddErr"
 		}
 		return "IAddOk"
+	}
+	if len(c.Pre) > 0 {
+		for i := range c.Pre {
+			addOne(b, c.Pre[i].build())
+		}
+		safeCall(func() { b.BuildIndex() })
+		b.Reset()
 	}
 	outs := make([]string, len(c.Docs))
 	if c.Batch > 1 {
